@@ -183,21 +183,24 @@ unsafe fn owned_by_system(p: usize) -> bool {
 
 // ----------------------------------------------------------------------------------------------------------------------
 /// User-defined relocating backend.
+/// `K` = granularity of `expand`: capacities grown through `expand` are rounded up to a multiple of K (K = 1: no rounding).
+/// A backend that gives MORE than requested exercises the capacity latitude from the backend's side.
 #[derive(Clone, Default)]
-pub struct FenceMemBuilder;
-pub struct FenceMem { ptr: usize, size: usize, layout: Layout, id: u32 }
+pub struct FenceMemBuilderK<const K: usize>;
+pub type FenceMemBuilder = FenceMemBuilderK<1>;
+pub struct FenceMem { ptr: usize, size: usize, layout: Layout, id: u32, k: usize }
 static mut NEXT_FM: u32 = 1;
 pub fn reset_fm() { unsafe { NEXT_FM = 1; } }
 
-impl MemBuilder for FenceMemBuilder {
+impl<const K: usize> MemBuilder for FenceMemBuilderK<K> {
     type Mem = FenceMem;
     fn build(&mut self, element_layout: Layout) -> FenceMem {
         let id = unsafe { let i = NEXT_FM; NEXT_FM += 1; i };
         reg::log(Cb::Mem(K_FM_BUILD, 0, element_layout.size() as u32, element_layout.align() as u32, id, 0));
-        FenceMem { ptr: element_layout.align(), size: 0, layout: element_layout, id }
+        FenceMem { ptr: element_layout.align(), size: 0, layout: element_layout, id, k: K.max(1) }
     }
 }
-impl MemBuilderSizeable for FenceMemBuilder {
+impl<const K: usize> MemBuilderSizeable for FenceMemBuilderK<K> {
     fn build_with_size(&mut self, element_layout: Layout, capacity: usize) -> FenceMem {
         let mut m = self.build(element_layout);
         m.resize(capacity);
@@ -214,7 +217,9 @@ impl Mem for FenceMem {
         // growth policy differs from Heap's on purpose: +50% (at least the request)
         let want = self.size.checked_add(additional).expect("capacity overflow");
         let grown = self.size + self.size / 2 + 1;
-        self.resize(want.max(grown));
+        let n = want.max(grown);
+        let rounded = n.checked_add(self.k - 1).expect("capacity overflow") / self.k * self.k;
+        self.resize(rounded);
     }
 }
 impl MemResizable for FenceMem {
